@@ -73,7 +73,7 @@ type Layout struct {
 	Multi     int    `json:"multi"`      // 0 inline //, 1 /* */ on one line, 2 /* */ with the note on its own line
 	Quote     int    `json:"quote"`      // rule names: 0 bare, 1 quoted, 2 quoted at the top / bare in nested rule-sets, 3 the reverse, 4 every second name
 	Pad       int    `json:"pad"`        // 0..2 extra blanks around tokens
-	Comments  int    `json:"comments"`   // 0 none, 1 '#' lines, 2 '###' blocks and end-of-line '#'
+	Comments  int    `json:"comments"`   // 0 none, 1 '#' lines, 2 '###' blocks and end-of-line '#', 3 like 1 and end-of-line, but every comment is empty ('#' and nothing else)
 	LeadBlank int    `json:"lead_blank"` // blank lines before
 	TailBlank int    `json:"tail_blank"` // blank lines after
 }
@@ -89,6 +89,14 @@ func jsonString(s string) string {
 	enc.SetEscapeHTML(false)
 	_ = enc.Encode(s)
 	return strings.TrimSuffix(sb.String(), "\n")
+}
+
+// comment writes a one-line user comment; with Comments == 3 it is empty.
+func (l Layout) comment(text string) string {
+	if l.Comments == 3 {
+		return "#"
+	}
+	return "# " + text
 }
 
 func (l Layout) sp() string { return strings.Repeat(" ", l.Pad) }
@@ -175,11 +183,11 @@ func (l Layout) Print(p Project) string {
 	var sb strings.Builder
 	sb.WriteString(strings.Repeat(l.NL, l.LeadBlank))
 	if l.Comments >= 1 {
-		sb.WriteString("# a user comment before the schema" + l.NL)
+		sb.WriteString(l.comment("a user comment before the schema") + l.NL)
 	}
 	l.node(&sb, p.Project, p.RootAnn, p.Notes, "", "", true)
 	if l.Comments >= 1 {
-		sb.WriteString(l.NL + "# a user comment after the schema")
+		sb.WriteString(l.NL + l.comment("a user comment after the schema"))
 	}
 	sb.WriteString(strings.Repeat(l.NL, l.TailBlank))
 	return sb.String()
@@ -195,8 +203,8 @@ func (l Layout) node(sb *strings.Builder, n Node, a Ann, notes []string, indent,
 	switch n.K {
 	case "scalar", "ref":
 		sb.WriteString(indent + prefix + n.Text + l.sp() + comma + ann)
-		if l.Comments == 2 && ann == "" {
-			sb.WriteString(" # end-of-line user comment")
+		if l.Comments >= 2 && ann == "" {
+			sb.WriteString(" " + l.comment("end-of-line user comment"))
 		}
 	case "array", "object":
 		open, close := "[", "]"
@@ -204,13 +212,17 @@ func (l Layout) node(sb *strings.Builder, n Node, a Ann, notes []string, indent,
 			open, close = "{", "}"
 		}
 		if len(n.Kids) == 0 {
-			sb.WriteString(indent + prefix + open + close + comma + ann)
+			inner := ""
+			if l.Pad > 0 {
+				inner = l.sp() // blanks between the brackets of an empty container
+			}
+			sb.WriteString(indent + prefix + open + inner + close + comma + ann)
 			return
 		}
 		sb.WriteString(indent + prefix + open + ann + l.NL)
 		for i, k := range n.Kids {
 			if l.Comments >= 1 && i == 1 {
-				sb.WriteString(indent + "  # a user comment between members" + l.NL)
+				sb.WriteString(indent + "  " + l.comment("a user comment between members") + l.NL)
 			}
 			if l.Comments == 2 && i == 0 {
 				sb.WriteString(indent + "  ###" + l.NL + indent + "  a block" + l.NL + indent + "  user comment" + l.NL + indent + "  ###" + l.NL)
